@@ -98,7 +98,7 @@ factory; no marker under the `text_` prefix; an `Edge` entry's stroke is a colou
 def RowP (markers : List MarkerRow) (ty : Str) (p : Str × Val) : Prop :=
   (isMarkerKey p.1 = true → ty = edgeName ∧ ∃ m, p.2 = .str m ∧ hasMarker markers m = true) ∧
   ¬ (textPfx.isPrefixOf p.1 = true ∧ isMarkerKey (attrName (p.1.drop 5)) = true) ∧
-  (p.1 = strokeKey → ty = edgeName → isColor p.2 = true)
+  (p.1 = strokeKey → ty = edgeName → ∃ h, hexOf p.2 = .ok h)
 
 theorem entryPlainOK_rowp {markers : List MarkerRow} {e : StyleEntry} (h : entryPlainOK markers e = true) :
     AllP (RowP markers (e.oc.takeWhile (· ≠ '.'))) e.props := by
@@ -124,7 +124,13 @@ theorem entryPlainOK_rowp {markers : List MarkerRow} {e : StyleEntry} (h : entry
     · rw [hb] at h2; cases h2
   · intro hk hty
     simp only [hk, hty, and_self, if_true] at h3
-    exact h3
+    cases hv : p.2 with
+    | color x => exact ⟨x, rfl⟩
+    | str x => rw [hv] at h3; cases h3
+    | num x => rw [hv] at h3; cases h3
+    | none => rw [hv] at h3; cases h3
+    | grad x => rw [hv] at h3; cases h3
+    | other x => rw [hv] at h3; cases h3
 
 def StylesPlainOK (styles : List StyleEntry) (markers : List MarkerRow) : Prop :=
   ∀ e ∈ styles, entryPlainOK markers e = true
@@ -168,13 +174,16 @@ classes it is empty (a class name containing "symbol") or has a stroke colour -/
 theorem getStyle_plain {styles : List StyleEntry} {markers : List MarkerRow} (h : StylesPlainOK styles markers)
     (hg : globalEdgeStroke styles = true) {dc : Option Str} {ty cls : Str} (hty : ∀ c ∈ ty, c ≠ '.')
     {D : List (Str × Val)} (hD : getStyle styles dc (ty ++ '.' :: cls) = .ok D) :
-    AllP (RowP markers ty) D ∧ (D = [] ∨ (ty = edgeName → ∃ hx, lookup D strokeKey = some (.color hx))) := by
+    AllP (RowP markers ty) D ∧
+    ((isInfixOfB "symbol".toList ((ty ++ '.' :: cls).map lowerChar) = true ∧ D = []) ∨
+     (ty = edgeName → ∃ v hx, lookup D strokeKey = some v ∧ hexOf v = .ok hx)) := by
   unfold getStyle at hD
   split at hD
   · cases hD
   · split at hD
-    · simp only [Except.ok.injEq] at hD; subst hD
-      exact ⟨(fun p hp => nomatch hp), .inl rfl⟩
+    · rename_i hsym
+      simp only [Except.ok.injEq] at hD; subst hD
+      exact ⟨(fun p hp => nomatch hp), .inl ⟨hsym, rfl⟩⟩
     · simp only [Except.ok.injEq] at hD
       subst hD
       rw [takeWhile_ty ty hty cls]
@@ -187,31 +196,25 @@ theorem getStyle_plain {styles : List StyleEntry} {markers : List MarkerRow} (h 
       refine ⟨merge_allp _ _ (merge_allp _ _ (merge_allp _ _ l1 l2) l3) l4, .inr ?_⟩
       intro hte
       subst hte
-      have base : ∃ v, lookup (lookupEntry styles globalName edgeName) strokeKey = some v ∧ isColor v = true := by
+      have base : ∃ v, lookup (lookupEntry styles globalName edgeName) strokeKey = some v ∧ ∃ h, hexOf v = .ok h := by
         unfold globalEdgeStroke at hg
         cases hl : lookup (lookupEntry styles globalName edgeName) strokeKey with
         | none => rw [hl] at hg; cases hg
         | some v =>
           rw [hl] at hg
           cases v with
-          | color x => exact ⟨_, rfl, rfl⟩
+          | color x => exact ⟨_, rfl, x, rfl⟩
           | str x => cases hg
           | num x => cases hg
           | none => cases hg
           | grad x => cases hg
           | other x => cases hg
-      have step : ∀ (a b : List (Str × Val)), (∃ v, lookup a strokeKey = some v ∧ isColor v = true) →
-          AllP (RowP markers edgeName) b → ∃ v, lookup (merge a b) strokeKey = some v ∧ isColor v = true :=
-        fun a b ha hb => lookup_merge_some (P := fun v => isColor v = true) b a ha
+      have step : ∀ (a b : List (Str × Val)), (∃ v, lookup a strokeKey = some v ∧ ∃ h, hexOf v = .ok h) →
+          AllP (RowP markers edgeName) b → ∃ v, lookup (merge a b) strokeKey = some v ∧ ∃ h, hexOf v = .ok h :=
+        fun a b ha hb => lookup_merge_some (P := fun v => ∃ h, hexOf v = .ok h) b a ha
           (fun v hv => (hb _ hv).2.2 rfl rfl)
-      obtain ⟨v, hv, hc⟩ := step _ _ (step _ _ (step _ _ base l2) l3) l4
-      cases v with
-      | color x => exact ⟨x, hv⟩
-      | str x => cases hc
-      | num x => cases hc
-      | none => cases hc
-      | grad x => cases hc
-      | other x => cases hc
+      obtain ⟨v, hv, h, hh⟩ := step _ _ (step _ _ (step _ _ base l2) l3) l4
+      exact ⟨v, h, hv, hh⟩
 
 /-! ### the two `Styling` objects of a bare element -/
 
@@ -236,19 +239,19 @@ theorem map_id_of_no_underscore (k : Str) (h : hasUnderscore k = false) : attrNa
 
 /-- the attributes of the object style of a bare element are properties of the resolved style (a circle moves its
 stroke to `fill`) -/
-theorem prepare_obj_attrs {T : Tables} {dc : Option Str} {o : Obj} (ho : o.style = []) {D : List (Str × Val)}
-    {P : Str × Val → Prop} (hD : AllP P D) (hfill : ∀ v, P (fillKey, v)) :
+theorem prepare_obj_attrs {T : Tables} {dc : Option Str} {o : Obj} {D : List (Str × Val)}
+    {P : Str × Val → Prop} (hD : AllP P D) (hO : AllP P o.style) (hfill : ∀ v, P (fillKey, v)) :
     AllP P (prepare T dc o D).objStyle.attrs := by
-  have h0 : AllP P ((D.filter fun p => !hasUnderscore p.1).map fun p => (attrName p.1, p.2)) := by
+  have hmy : AllP P (merge D o.style) := merge_allp _ _ hD hO
+  have h0 : AllP P (((merge D o.style).filter fun p => !hasUnderscore p.1).map fun p => (attrName p.1, p.2)) := by
     intro p hp
     obtain ⟨q, hq, rfl⟩ := List.mem_map.mp hp
     have hq' := List.mem_filter.mp hq
     have : attrName q.1 = q.1 := map_id_of_no_underscore q.1 (by simpa using hq'.2)
     rw [this]
-    exact hD q hq'.1
-  have hmerge : merge D o.style = D := by rw [ho]; rfl
+    exact hmy q hq'.1
   unfold prepare
-  simp only [hmerge]
+  simp only
   cases hk : o.kind with
   | circle =>
     simp only
@@ -260,16 +263,16 @@ theorem prepare_obj_attrs {T : Tables} {dc : Option Str} {o : Obj} (ho : o.style
   | symbol => exact h0
   | boxSymbol => exact h0
 
-theorem prepare_text_attrs {T : Tables} {dc : Option Str} {o : Obj} (ho : o.style = []) {D : List (Str × Val)}
-    {markers : List MarkerRow} {ty : Str} (hD : AllP (RowP markers ty) D) :
+theorem prepare_text_attrs {T : Tables} {dc : Option Str} {o : Obj} {D : List (Str × Val)}
+    {markers : List MarkerRow} {ty : Str} (hD : AllP (RowP markers ty) D) (hO : AllP (RowP markers ty) o.style) :
     AllP (fun p => isMarkerKey p.1 = false) (prepare T dc o D).textStyle.attrs := by
-  have hmerge : merge D o.style = D := by rw [ho]; rfl
+  have hmy : AllP (RowP markers ty) (merge D o.style) := merge_allp _ _ hD hO
   unfold prepare
-  simp only [hmerge]
+  simp only
   intro p hp
   obtain ⟨q, hq, rfl⟩ := List.mem_map.mp hp
   have hq' := List.mem_filter.mp hq
-  have := (hD q hq'.1).2.1
+  have := (hmy q hq'.1).2.1
   simp only
   cases hm : isMarkerKey (attrName (List.drop 5 q.1)) with
   | false => rfl
@@ -277,22 +280,31 @@ theorem prepare_text_attrs {T : Tables} {dc : Option Str} {o : Obj} (ho : o.styl
 
 /-! ### success of the individual steps -/
 
-theorem strokes_ok {D : List (Str × Val)} {s : Styling} (ha : ∀ v, (strokeKey, v) ∈ s.attrs → isColor v = true)
-    (hd : ∃ hx, lookup D (s.styleName strokeKey) = some (.color hx)) :
+theorem strokes_ok {D : List (Str × Val)} {s : Styling} (ha : ∀ v, (strokeKey, v) ∈ s.attrs → ∃ h, hexOf v = .ok h)
+    (hd : ∃ v hx, lookup D (s.styleName strokeKey) = some v ∧ hexOf v = .ok hx) :
     (∃ h, hexOf (refStroke D s) = .ok h) ∧ (∃ h, hexOf (deployStroke D s) = .ok h) := by
-  obtain ⟨hx, hd⟩ := hd
+  obtain ⟨dv, hx, hd, hdh⟩ := hd
+  have hdn : dv ≠ .none := by intro h; subst h; simp [hexOf] at hdh
   unfold refStroke deployStroke
   cases hl : lookup s.attrs strokeKey with
-  | none => simp only [hd, Option.getD_some]; exact ⟨⟨hx, rfl⟩, ⟨hx, rfl⟩⟩
+  | none =>
+    simp only [hd, Option.getD_some]
+    cases dv with
+    | none => exact absurd rfl hdn
+    | color x => exact ⟨⟨hx, hdh⟩, ⟨hx, hdh⟩⟩
+    | str x => exact ⟨⟨hx, hdh⟩, ⟨hx, hdh⟩⟩
+    | num x => exact ⟨⟨hx, hdh⟩, ⟨hx, hdh⟩⟩
+    | grad x => exact ⟨⟨hx, hdh⟩, ⟨hx, hdh⟩⟩
+    | other x => exact ⟨⟨hx, hdh⟩, ⟨hx, hdh⟩⟩
   | some v =>
-    have hc := ha v (lookup_pair hl)
+    obtain ⟨h, hh⟩ := ha v (lookup_pair hl)
     cases v with
-    | color x => exact ⟨⟨x, rfl⟩, ⟨x, rfl⟩⟩
-    | str x => cases hc
-    | num x => cases hc
-    | none => cases hc
-    | grad x => cases hc
-    | other x => cases hc
+    | none => simp [hexOf] at hh
+    | color x => exact ⟨⟨h, hh⟩, ⟨h, hh⟩⟩
+    | str x => exact ⟨⟨h, hh⟩, ⟨h, hh⟩⟩
+    | num x => exact ⟨⟨h, hh⟩, ⟨h, hh⟩⟩
+    | grad x => exact ⟨⟨h, hh⟩, ⟨h, hh⟩⟩
+    | other x => exact ⟨⟨h, hh⟩, ⟨h, hh⟩⟩
 
 /-- the marker attributes of a styling are harmless: whatever is found under `marker-start` / `marker-end` — on the
 instance or in the defaults — names a factory, and then both stroke lookups yield a colour -/
@@ -410,12 +422,49 @@ theorem rowp_fill (markers : List MarkerRow) (ty : Str) (v : Val) : RowP markers
   · change textPfx.isPrefixOf fillKey = true ∧ _ at h; rw [h2] at h; cases h.1
   · exact absurd h h3
 
-theorem markersFine_obj {T : Tables} (h : PlainTables T) {dc : Option Str} {o : Obj} (ho : o.style = [])
+/-- the style overrides of an element obey the rules the table entries obey: a marker only on an `Edge`-type element
+and naming a factory, no marker under a `text_` key, a stroke on an `Edge`-type element parses as a colour -/
+def OverridesOK (T : Tables) (o : Obj) : Prop := AllP (RowP T.markers (styleType o.kind)) o.style
+
+theorem isEdgeType_iff (k : Kind) : isEdgeType k = true ↔ styleType k = edgeName := by
+  cases k <;> decide
+
+theorem overridePlainOK_ok {T : Tables} {o : Obj}
+    (h : o.style.all (overridePlainOK T.markers (isEdgeType o.kind)) = true) : OverridesOK T o := by
+  intro p hp
+  have := (List.all_eq_true.mp h) p hp
+  unfold overridePlainOK at this
+  simp only [Bool.and_eq_true, Bool.not_eq_true', Bool.and_eq_false_iff] at this
+  obtain ⟨⟨h1, h2⟩, h3⟩ := this
+  refine ⟨?_, ?_, ?_⟩
+  · intro hm
+    simp only [hm, if_true, Bool.and_eq_true] at h1
+    refine ⟨(isEdgeType_iff o.kind).mp h1.1, ?_⟩
+    cases hv : p.2 with
+    | str m => rw [hv] at h1; exact ⟨m, rfl, h1.2⟩
+    | none => rw [hv] at h1; simp at h1
+    | color x => rw [hv] at h1; simp at h1
+    | num x => rw [hv] at h1; simp at h1
+    | grad x => rw [hv] at h1; simp at h1
+    | other x => rw [hv] at h1; simp at h1
+  · rintro ⟨ha, hb⟩
+    rcases h2 with h2 | h2
+    · rw [ha] at h2; cases h2
+    · rw [hb] at h2; cases h2
+  · intro hk hty
+    have he : isEdgeType o.kind = true := (isEdgeType_iff o.kind).mpr hty
+    simp only [hk, he, and_self, if_true] at h3
+    cases hh : hexOf p.2 with
+    | ok x => exact ⟨x, rfl⟩
+    | error e => rw [hh] at h3; cases h3
+
+theorem markersFine_obj {T : Tables} (h : PlainTables T) {dc : Option Str} {o : Obj} (hO : OverridesOK T o)
+    (hns : o.style = [] ∨ isInfixOfB "symbol".toList ((styleType o.kind ++ '.' :: o.cls).map lowerChar) = false)
     {D : List (Str × Val)} (hD : getStyle T.styles dc (styleType o.kind ++ '.' :: o.cls) = .ok D) :
     MarkersFine T.markers D (prepare T dc o D).objStyle := by
   obtain ⟨hall, hstroke⟩ := getStyle_plain h.styles h.edge (styleType_nodot o.kind) hD
   have hattrs : AllP (RowP T.markers (styleType o.kind)) (prepare T dc o D).objStyle.attrs :=
-    prepare_obj_attrs ho hall (rowp_fill _ _)
+    prepare_obj_attrs hall hO (rowp_fill _ _)
   intro attr ha v hv
   have hkey : isMarkerKey attr = true := by rcases ha with rfl | rfl <;> decide
   have hsn : ∀ a, (prepare T dc o D).objStyle.styleName a = a := fun a => rfl
@@ -425,28 +474,31 @@ theorem markersFine_obj {T : Tables} (h : PlainTables T) {dc : Option Str} {o : 
     · rw [hsn] at hv; exact hall _ hv
   obtain ⟨hte, m, hm, hmk⟩ := hrow.1 hkey
   simp only at hm
-  rcases hstroke with hnil | hs
+  rcases hstroke with ⟨hsym, hnil⟩ | hs
   · exfalso
-    subst hnil
-    rcases hv with hv | hv
-    · have : AllP (fun p => isMarkerKey p.1 = false) (prepare T dc o []).objStyle.attrs :=
-        prepare_obj_attrs ho (fun p hp => nomatch hp) (fun _ => (by decide : isMarkerKey fillKey = false))
-      have := this _ hv
-      simp only at this
-      rw [hkey] at this; cases this
-    · cases hv
+    rcases hns with hst | hns
+    · subst hnil
+      rcases hv with hv | hv
+      · have : AllP (fun p => isMarkerKey p.1 = false) (prepare T dc o []).objStyle.attrs :=
+          prepare_obj_attrs (fun p hp => nomatch hp) (by rw [hst]; exact fun p hp => nomatch hp)
+            (fun _ => (by decide : isMarkerKey fillKey = false))
+        have := this _ hv
+        simp only at this
+        rw [hkey] at this; cases this
+      · cases hv
+    · rw [hns] at hsym; cases hsym
   · have hsk := strokes_ok (D := D) (s := (prepare T dc o D).objStyle)
       (fun w hw => (hattrs _ hw).2.2 rfl hte) (by rw [hsn]; exact hs hte)
     exact ⟨⟨m, hm, hmk⟩, hsk.1, hsk.2⟩
 
-theorem markersFine_text {T : Tables} (h : PlainTables T) {dc : Option Str} {o : Obj} (ho : o.style = [])
+theorem markersFine_text {T : Tables} (h : PlainTables T) {dc : Option Str} {o : Obj} (hO : OverridesOK T o)
     {D : List (Str × Val)} (hD : getStyle T.styles dc (styleType o.kind ++ '.' :: o.cls) = .ok D) :
     MarkersFine T.markers D (prepare T dc o D).textStyle := by
   obtain ⟨hall, _⟩ := getStyle_plain h.styles h.edge (styleType_nodot o.kind) hD
   intro attr ha v hv
   exfalso
   rcases hv with hv | hv
-  · have := prepare_text_attrs (T := T) (dc := dc) ho hall _ hv
+  · have := prepare_text_attrs (T := T) (dc := dc) hall hO _ hv
     simp only at this
     have hkey : isMarkerKey attr = true := by rcases ha with rfl | rfl <;> decide
     rw [hkey] at this; cases this
@@ -460,9 +512,11 @@ theorem markersFine_text {T : Tables} (h : PlainTables T) {dc : Option Str} {o :
     · exact (by decide : textPfx.isPrefixOf ("text".toList ++ '_' :: markerEnd) = true ∧
         isMarkerKey (attrName (List.drop 5 ("text".toList ++ '_' :: markerEnd))) = true)
 
-/-- **every element without style overrides draws** — any kind, any style class and any diagram class, known to the
-tables or not, with any labels, features, children — unless svgwrite rejects `rx`/`ry` on its `<use>` -/
-theorem unstyled_draws {T : Tables} (h : PlainTables T) (dc : Option Str) (o : Obj) (ho : o.style = []) :
+/-- **every element whose style overrides obey the table rules draws** — any kind, any style class and any diagram
+class, known to the tables or not, with any labels, features, children — unless svgwrite rejects `rx`/`ry` on its `<use>`
+(overrides on a class whose name contains "symbol" — `get_style` returns `{}` for those — are left out) -/
+theorem styled_draws {T : Tables} (h : PlainTables T) (dc : Option Str) (o : Obj) (hO : OverridesOK T o)
+    (hns : o.style = [] ∨ isInfixOfB "symbol".toList ((styleType o.kind ++ '.' :: o.cls).map lowerChar) = false) :
     (∃ d, drawObject T dc o = .ok d) ∨
     (drawObject T dc o = .error .invalidAttribute ∧
       ∃ D, getStyle T.styles dc (styleType o.kind ++ '.' :: o.cls) = .ok D ∧ useRejects T o (prepare T dc o D) = true) := by
@@ -475,8 +529,8 @@ theorem unstyled_draws {T : Tables} (h : PlainTables T) (dc : Option Str) (o : O
     simp only [hu, Bool.false_eq_true, if_false]
     have hgo : getStyle T.styles (prepare T dc o D).objStyle.dc (prepare T dc o D).objStyle.cls = .ok D := hD
     have hgt : getStyle T.styles (prepare T dc o D).textStyle.dc (prepare T dc o D).textStyle.cls = .ok D := hD
-    obtain ⟨⟨r1, h1⟩, ⟨d1, h4⟩⟩ := styling_ok hgo (markersFine_obj h ho hD)
-    obtain ⟨⟨r2, h2⟩, ⟨d2, h5⟩⟩ := styling_ok hgt (markersFine_text h ho hD)
+    obtain ⟨⟨r1, h1⟩, ⟨d1, h4⟩⟩ := styling_ok hgo (markersFine_obj h hO hns hD)
+    obtain ⟨⟨r2, h2⟩, ⟨d2, h5⟩⟩ := styling_ok hgt (markersFine_text h hO hD)
     obtain ⟨sy, h3⟩ := collectM_ok_of_all (f := symbolDefs T.symbols) (prepare T dc o D).uses
       (fun u _ => symbolDefs_ok h.term h.err u)
     have ht : ∃ tr, textRefsOf T (prepare T dc o D) = .ok tr := by
@@ -488,5 +542,11 @@ theorem unstyled_draws {T : Tables} (h : PlainTables T) (dc : Option Str) (o : O
     unfold assemble
     simp only [bind, Except.bind, h1, ht, if_true, h3, h4, h5, pure, Except.pure]
     exact ⟨_, rfl⟩
+
+theorem unstyled_draws {T : Tables} (h : PlainTables T) (dc : Option Str) (o : Obj) (ho : o.style = []) :
+    (∃ d, drawObject T dc o = .ok d) ∨
+    (drawObject T dc o = .error .invalidAttribute ∧
+      ∃ D, getStyle T.styles dc (styleType o.kind ++ '.' :: o.cls) = .ok D ∧ useRejects T o (prepare T dc o D) = true) :=
+  styled_draws h dc o (by unfold OverridesOK; rw [ho]; exact fun p hp => nomatch hp) (.inl ho)
 
 end Capella.Svg
